@@ -740,7 +740,17 @@ pub fn storm_cfg(rng: &Rng) -> Cfg {
         cuts: vec![],
         faults: vec![],
         // sometimes a long run of consecutive interruptions on top (retry budgets)
-        intr_burst: if rng.chance(1, 2) { Some((rng.range(0, 40), rng.range(200, 2500))) } else { None },
+        // (one storm in eight beyond a 16-bit retry counter, one in forty beyond 2^20)
+        intr_burst: if rng.chance(1, 2) {
+            let len = match rng.below(40) {
+                0 => rng.range(1_048_570, 1_100_000),
+                1..=5 => rng.range(65_530, 70_000),
+                _ => rng.range(200, 2500),
+            };
+            Some((rng.range(0, 40), len))
+        } else {
+            None
+        },
         lift: None, pause: None,
     }
 }
